@@ -3,11 +3,15 @@
 //
 // Request grammar:
 //   c02.channels <shards> <pad> <records>
-//       honest malicious-mode hybrid query with a recording interceptor; response: sorted list of
-//       `<gate>|<src>><dst>|<bytes>` separated by `;`  (helper-to-helper channels only)
-//   c02.tamper <shards> <pad> <records> <corrupt H1|H2|H3> <dest H1|H2|H3> <pattern> <gate>
-//       same query, with the interceptor altering the traffic `corrupt -> dest` on `gate`:
-//       pattern = flip:<byte offset>:<bit>  |  add:<byte offset>:<delta>  |  zero  |  swap
+//       honest malicious-mode hybrid query with a recording interceptor; response: every observed chunk in the
+//       order in which the receiving side pulled it (consecutive chunks of one channel merged), `,`-separated:
+//       `<gate>|m|<src><dst>|<shard or ->`  helper-to-helper,  `<gate>|x|<helper>|<src>><dst>`  shard-to-shard
+//   c02.tamper <shards> <pad> <records> <corrupt H1|H2|H3> <actions>
+//       same query; the interceptor alters messages sent by the corrupt helper. actions (`,`-separated, all applied
+//       in the same run): `<dest H1|H2|H3>|<shard or ->|<pattern>|<gate>`; pattern =
+//         flip:<byte offset>:<bit> | add:<byte offset>:<delta> | zero | swap          (blind, byte level)
+//         f25:<elem>:<p|m><delta> | f61:<elem>:<p|m><delta>    additive offset on field element <elem> of the channel
+//         swaprec:<size>:<a>:<b> | replay:<size>:<from>:<to>   records of <size> bytes swapped / replayed
 //       response: `abort-or-same abort:<kind>` | `abort-or-same same` | `changed <histogram>` | `untouched`
 use std::sync::{Arc, Mutex};
 
@@ -16,7 +20,11 @@ use futures::future::try_join3;
 use super::{c01, proto::*};
 use crate::{
     error::Error,
-    ff::{U128Conversions, boolean_array::{BA3, BA8, BA32}},
+    ff::{
+        Field, Fp61BitPrime, Serializable, U128Conversions,
+        boolean_array::{BA3, BA8, BA32},
+        ec_prime_field::Fp25519,
+    },
     helpers::{
         HelperIdentity, Role, RoleAssignment,
         in_memory_config::{InspectContext, StreamInterceptor},
@@ -35,14 +43,43 @@ pub enum Pattern {
     Add(usize, u8),
     Zero,
     Swap,
+    /// additive offset on field element `elem` of the channel (little-endian elements of `size` bytes):
+    /// `f25:<elem>:<p|m><delta>` (Fp25519, 32 bytes; the offset is the field element `Fp25519::from(delta)`,
+    /// `m` = its negation), `f61:<elem>:<p|m><delta>` (Fp61BitPrime, 8 bytes)
+    FieldAdd { f61: bool, elem: usize, neg: bool, delta: u64 },
+    /// swap records `a` and `b` (of `size` bytes each) if both travel in the same chunk
+    SwapRec { size: usize, a: usize, b: usize },
+    /// overwrite record `to` with the bytes of the earlier record `from`
+    Replay { size: usize, from: usize, to: usize },
+}
+
+pub struct Action {
+    /// (full gate, src, dst, shard)
+    pub key: (String, u8, u8, Option<u32>),
+    pub pattern: Pattern,
+    pub saved: Mutex<Option<Vec<u8>>>,
+}
+
+/// one observed chunk, in the order in which the receiving side pulled it
+#[derive(Clone, Debug)]
+pub struct Ev {
+    pub gate: String,
+    /// `true`: helper-to-helper message (`a` = source helper, `b` = destination helper, `shard`);
+    /// `false`: shard-to-shard message inside helper `a` (`b` unused; `shards` = (source, dest))
+    pub mpc: bool,
+    pub a: u8,
+    pub b: u8,
+    pub shard: Option<u32>,
+    pub shards: (u32, u32),
+    pub len: usize,
 }
 
 #[derive(Default)]
 pub struct Recorder {
-    /// (gate, src, dst) -> bytes seen
-    pub seen: Mutex<std::collections::BTreeMap<(String, u8, u8), usize>>,
-    pub target: Option<(String, u8, u8)>,
-    pub pattern: Option<Pattern>,
+    /// (gate, src, dst, shard) -> bytes seen (helper-to-helper channels)
+    pub seen: Mutex<std::collections::BTreeMap<(String, u8, u8, Option<u32>), usize>>,
+    pub events: Mutex<Vec<Ev>>,
+    pub actions: Vec<Action>,
     pub hits: Mutex<usize>,
 }
 
@@ -50,53 +87,137 @@ fn hid(h: HelperIdentity) -> u8 {
     if h == HelperIdentity::ONE { 1 } else if h == HelperIdentity::TWO { 2 } else { 3 }
 }
 
+fn field_add(slot: &mut [u8], f61: bool, neg: bool, delta: u64) {
+    if f61 {
+        let d = Fp61BitPrime::truncate_from(u128::from(delta));
+        let v = Fp61BitPrime::deserialize_from_slice(slot);
+        let v = if neg { v - d } else { v + d };
+        v.serialize_to_slice(slot);
+    } else {
+        let d = Fp25519::from(delta);
+        let v = Fp25519::deserialize_from_slice(slot);
+        let v = if neg { v - d } else { v + d };
+        v.serialize_to_slice(slot);
+    }
+}
+
+impl Recorder {
+    fn apply(&self, act: &Action, offset_before: usize, data: &mut Vec<u8>) {
+        let hit = || *self.hits.lock().unwrap() += 1;
+        let end = offset_before + data.len();
+        match &act.pattern {
+            Pattern::Flip(off, bit) => {
+                // offset counted over the whole channel
+                if *off >= offset_before && *off < end {
+                    data[*off - offset_before] ^= 1 << bit;
+                    hit();
+                }
+            }
+            Pattern::Add(off, d) => {
+                if *off >= offset_before && *off < end {
+                    let i = *off - offset_before;
+                    data[i] = data[i].wrapping_add(*d);
+                    hit();
+                }
+            }
+            Pattern::Zero => {
+                if offset_before == 0 && data.iter().any(|b| *b != 0) {
+                    for b in data.iter_mut() {
+                        *b = 0;
+                    }
+                    hit();
+                }
+            }
+            Pattern::Swap => {
+                if offset_before == 0 && data.len() >= 2 {
+                    let n = data.len();
+                    if data[0] != data[n - 1] {
+                        data.swap(0, n - 1);
+                        hit();
+                    }
+                }
+            }
+            Pattern::FieldAdd { f61, elem, neg, delta } => {
+                let size = if *f61 { 8 } else { 32 };
+                let lo = elem * size;
+                if lo >= offset_before && lo + size <= end {
+                    let i = lo - offset_before;
+                    // a canonical encoding is required by `deserialize`; anything else is left alone
+                    let ok = guarded(|| {
+                        let mut slot = data[i..i + size].to_vec();
+                        field_add(&mut slot, *f61, *neg, *delta);
+                        slot
+                    });
+                    if let Ok(slot) = ok {
+                        data[i..i + size].copy_from_slice(&slot);
+                        hit();
+                    }
+                }
+            }
+            Pattern::SwapRec { size, a, b } => {
+                let (la, lb) = (a * size, b * size);
+                if la >= offset_before && lb >= offset_before && la + size <= end && lb + size <= end && a != b {
+                    let (ia, ib) = (la - offset_before, lb - offset_before);
+                    let ra = data[ia..ia + size].to_vec();
+                    let rb = data[ib..ib + size].to_vec();
+                    if ra != rb {
+                        data[ia..ia + size].copy_from_slice(&rb);
+                        data[ib..ib + size].copy_from_slice(&ra);
+                        hit();
+                    }
+                }
+            }
+            Pattern::Replay { size, from, to } => {
+                let (lf, lt) = (from * size, to * size);
+                if lf >= offset_before && lf + size <= end {
+                    let i = lf - offset_before;
+                    *act.saved.lock().unwrap() = Some(data[i..i + size].to_vec());
+                }
+                if lt >= offset_before && lt + size <= end {
+                    if let Some(sv) = act.saved.lock().unwrap().clone() {
+                        let i = lt - offset_before;
+                        if data[i..i + size] != sv[..] {
+                            data[i..i + size].copy_from_slice(&sv);
+                            hit();
+                        }
+                    }
+                }
+            }
+            Pattern::None => {}
+        }
+    }
+}
+
 impl StreamInterceptor for Recorder {
     type Context = InspectContext;
 
     fn peek(&self, ctx: &InspectContext, data: &mut Vec<u8>) {
-        if let InspectContext::MpcMessage { source, dest, gate, .. } = ctx {
-            let key = (gate.as_ref().to_string(), hid(*source), hid(*dest));
-            let mut seen = self.seen.lock().unwrap();
-            let offset_before = *seen.get(&key).unwrap_or(&0);
-            *seen.entry(key.clone()).or_insert(0) += data.len();
-            drop(seen);
-            if let (Some(t), Some(p)) = (&self.target, &self.pattern) {
-                if *t == key && !data.is_empty() {
-                    match p {
-                        Pattern::Flip(off, bit) => {
-                            // offset counted over the whole channel
-                            if *off >= offset_before && *off < offset_before + data.len() {
-                                data[*off - offset_before] ^= 1 << bit;
-                                *self.hits.lock().unwrap() += 1;
-                            }
+        match ctx {
+            InspectContext::MpcMessage { shard, source, dest, gate } => {
+                let sh = shard.map(u32::from);
+                let key = (gate.as_ref().to_string(), hid(*source), hid(*dest), sh);
+                let offset_before = {
+                    let mut seen = self.seen.lock().unwrap();
+                    let before = *seen.get(&key).unwrap_or(&0);
+                    *seen.entry(key.clone()).or_insert(0) += data.len();
+                    before
+                };
+                self.events.lock().unwrap().push(Ev {
+                    gate: key.0.clone(), mpc: true, a: key.1, b: key.2, shard: sh, shards: (0, 0), len: data.len(),
+                });
+                if !data.is_empty() {
+                    for act in &self.actions {
+                        if act.key == key {
+                            self.apply(act, offset_before, data);
                         }
-                        Pattern::Add(off, d) => {
-                            if *off >= offset_before && *off < offset_before + data.len() {
-                                let i = *off - offset_before;
-                                data[i] = data[i].wrapping_add(*d);
-                                *self.hits.lock().unwrap() += 1;
-                            }
-                        }
-                        Pattern::Zero => {
-                            if offset_before == 0 && data.iter().any(|b| *b != 0) {
-                                for b in data.iter_mut() {
-                                    *b = 0;
-                                }
-                                *self.hits.lock().unwrap() += 1;
-                            }
-                        }
-                        Pattern::Swap => {
-                            if offset_before == 0 && data.len() >= 2 {
-                                let n = data.len();
-                                if data[0] != data[n - 1] {
-                                    data.swap(0, n - 1);
-                                    *self.hits.lock().unwrap() += 1;
-                                }
-                            }
-                        }
-                        Pattern::None => {}
                     }
                 }
+            }
+            InspectContext::ShardMessage { helper, source, dest, gate } => {
+                self.events.lock().unwrap().push(Ev {
+                    gate: gate.as_ref().to_string(), mpc: false, a: hid(*helper), b: 0, shard: None,
+                    shards: (u32::from(*source), u32::from(*dest)), len: data.len(),
+                });
             }
         }
     }
@@ -117,14 +238,33 @@ pub fn normalize_gate(g: &str) -> String {
 
 fn parse_pattern(s: &str) -> Pattern {
     let p: Vec<&str> = s.split(':').collect();
+    let signed = |x: &str| -> (bool, u64) { (x.starts_with('m'), x[1..].parse().unwrap()) };
     match p[0] {
         "flip" => Pattern::Flip(p[1].parse().unwrap(), p[2].parse().unwrap()),
         "add" => Pattern::Add(p[1].parse().unwrap(), p[2].parse().unwrap()),
         "zero" => Pattern::Zero,
         "swap" => Pattern::Swap,
         "none" => Pattern::None,
+        "f25" | "f61" => {
+            let (neg, delta) = signed(p[2]);
+            Pattern::FieldAdd { f61: p[0] == "f61", elem: p[1].parse().unwrap(), neg, delta }
+        }
+        "swaprec" => Pattern::SwapRec { size: p[1].parse().unwrap(), a: p[2].parse().unwrap(), b: p[3].parse().unwrap() },
+        "replay" => Pattern::Replay { size: p[1].parse().unwrap(), from: p[2].parse().unwrap(), to: p[3].parse().unwrap() },
         x => panic!("harness: bad pattern {x}"),
     }
+}
+
+/// `<dst H1|H2|H3>|<shard or ->|<pattern>|<gate>` joined by `,`
+fn parse_actions(src: u8, s: &str) -> Vec<Action> {
+    s.split(',')
+        .map(|a| {
+            let f: Vec<&str> = a.split('|').collect();
+            let dst: u8 = f[0][1..].parse().unwrap();
+            let shard = if f[1] == "-" { None } else { Some(f[1].parse().unwrap()) };
+            Action { key: (f[3].to_string(), src, dst, shard), pattern: parse_pattern(f[2]), saved: Mutex::new(None) }
+        })
+        .collect()
 }
 
 pub enum Outcome {
@@ -205,18 +345,34 @@ fn seed_of(shards: &str, pad: &str, recs: &str) -> u64 {
     format!("{shards} {pad} {recs}").bytes().fold(0xcbf2_9ce4_8422_2325u64, |h, b| (h ^ u64::from(b)).wrapping_mul(0x0000_0100_0000_01B3))
 }
 
+/// the observed chunks in order, consecutive chunks of the same (normalised) channel merged:
+/// `<gate>|m|<src><dst>|<shard or ->` for helper-to-helper, `<gate>|x|<helper>|<src shard>><dst shard>` for
+/// shard-to-shard traffic inside one helper
+fn events_str(evs: &[Ev]) -> String {
+    let mut out: Vec<String> = vec![];
+    for e in evs {
+        let g = normalize_gate(&e.gate);
+        let t = if e.mpc {
+            format!("{g}|m|{}{}|{}", e.a, e.b, e.shard.map_or("-".to_string(), |x| x.to_string()))
+        } else {
+            format!("{g}|x|{}|{}>{}", e.a, e.shards.0, e.shards.1)
+        };
+        if out.last() != Some(&t) {
+            out.push(t);
+        }
+    }
+    out.join(",")
+}
+
 pub fn exec(req: &str) -> String {
     let t: Vec<&str> = req.split(' ').collect();
     match t[0] {
         "c02.channels" => {
             let rec = Arc::new(Recorder::default());
             let o = run_blocking(t[1].parse().unwrap(), rec.clone(), pad_of(t[2]), c01::parse_records(t[3]), seed_of(t[1], t[2], t[3]), 60);
-            let seen = rec.seen.lock().unwrap();
-            let mut chans: Vec<String> = seen.iter().map(|((g, _, _), _)| normalize_gate(g)).collect();
-            chans.sort();
-            chans.dedup();
+            let evs = rec.events.lock().unwrap();
             match o {
-                Outcome::Hist(_) => chans.join(","),
+                Outcome::Hist(_) => events_str(&evs),
                 Outcome::Abort(k) => format!("abort:{k}"),
             }
         }
@@ -225,23 +381,29 @@ pub fn exec(req: &str) -> String {
             let seed = seed_of(t[1], t[2], t[3]);
             let key = format!("{} {} {}", t[1], t[2], t[3]);
             let cached = HONEST.lock().unwrap().get(&key).cloned();
-            let honest = match cached {
+            let (honest, secs) = match cached {
                 Some(h) => h,
                 None => {
+                    let t0 = std::time::Instant::now();
                     let honest = run_blocking(shards, Arc::new(Recorder::default()), pad_of(t[2]), c01::parse_records(t[3]), seed, 60);
                     let Outcome::Hist(honest) = honest else { return "honest-run-failed".into() };
-                    HONEST.lock().unwrap().insert(key, honest.clone());
-                    honest
+                    // a tampered run gets three times the honest run's time (at least 12 s) before it counts as a hang
+                    let secs = std::cmp::max(12, 3 * t0.elapsed().as_secs() + 3);
+                    HONEST.lock().unwrap().insert(key, (honest.clone(), secs));
+                    (honest, secs)
                 }
             };
             let src: u8 = t[4][1..].parse().unwrap();
-            let dst: u8 = t[5][1..].parse().unwrap();
-            let rec = Arc::new(Recorder {
-                target: Some((t[7].to_string(), src, dst)),
-                pattern: Some(parse_pattern(t[6])),
-                ..Default::default()
-            });
-            let o = run_guarded(shards, rec.clone(), pad_of(t[2]), c01::parse_records(t[3]), seed, 12);
+            let rec = Arc::new(Recorder { actions: parse_actions(src, t[5]), ..Default::default() });
+            let t1 = std::time::Instant::now();
+            let o = run_guarded(shards, rec.clone(), pad_of(t[2]), c01::parse_records(t[3]), seed, secs);
+            if let Ok(dir) = std::env::var("VERIF_OUT") {
+                // wall time per case, for tuning the tiers (not part of the trace: not deterministic)
+                use std::io::Write;
+                if let Ok(mut f) = std::fs::OpenOptions::new().create(true).append(true).open(format!("{dir}/c02_tamper.times")) {
+                    let _ = writeln!(f, "{:.1}\t{}\t{}", t1.elapsed().as_secs_f32(), t[1], t[5].chars().take(120).collect::<String>());
+                }
+            }
             let hits = *rec.hits.lock().unwrap();
             match o {
                 Outcome::Abort(k) => format!("abort-or-same abort:{k}"),
@@ -255,43 +417,186 @@ pub fn exec(req: &str) -> String {
     }
 }
 
-static HONEST: Mutex<std::collections::BTreeMap<String, Vec<u128>>> = Mutex::new(std::collections::BTreeMap::new());
+static HONEST: Mutex<std::collections::BTreeMap<String, (Vec<u128>, u64)>> = Mutex::new(std::collections::BTreeMap::new());
 
-/// honest run listing every concrete channel (gate, src, dst, bytes)
-fn list_channels(shards: usize, pad: &str, recs: &str) -> Vec<(String, u8, u8, usize)> {
+type Chan = (String, u8, u8, Option<u32>, usize);
+
+/// honest run listing every concrete helper-to-helper channel (gate, src, dst, shard, bytes)
+fn list_channels(shards: usize, pad: &str, recs: &str) -> Vec<Chan> {
     let rec = Arc::new(Recorder::default());
     let sh = shards.to_string();
     let _ = run_blocking(shards, rec.clone(), pad_of(pad), c01::parse_records(recs), seed_of(&sh, pad, recs), 60);
     let seen = rec.seen.lock().unwrap();
-    seen.iter().map(|((g, s, d), n)| (g.clone(), *s, *d, *n)).collect()
+    seen.iter().map(|((g, s, d, x), n)| (g.clone(), *s, *d, *x, *n)).collect()
 }
 
-fn gen_tamper(rng: &mut Rng, thorough: bool, shards: usize, pad: &str, recs: &str, out: &mut Vec<String>) {
-    let chans = list_channels(shards, pad, recs);
-    // group concrete channels by normalised gate class
-    let mut classes: std::collections::BTreeMap<String, Vec<(String, u8, u8, usize)>> = Default::default();
-    for c in chans {
-        if c.3 > 0 {
-            classes.entry(normalize_gate(&c.0)).or_default().push(c);
+fn act(c: &Chan, pat: &str) -> String {
+    format!("H{}|{}|{pat}|{}", c.2, c.3.map_or("-".to_string(), |x| x.to_string()), c.0)
+}
+
+fn prev_h(h: u8) -> u8 { (h + 1) % 3 + 1 }
+fn next_h(h: u8) -> u8 { h % 3 + 1 }
+
+/// Fp25519 lanes per record of the PRF evaluation (`PRF_CHUNK`)
+const LANES: usize = crate::protocol::ipa_prf::PRF_CHUNK;
+
+fn blind_pattern(rng: &mut Rng, k: usize, n: usize) -> String {
+    match k % 5 {
+        0 => format!("flip:0:{}", rng.below(8)),
+        1 => format!("flip:{}:{}", n - 1, rng.below(8)),
+        2 => format!("add:{}:{}", rng.usize_below(n), 1 + rng.below(255)),
+        3 => "zero".to_string(),
+        _ => format!("flip:{}:{}", rng.usize_below(n), rng.below(8)),
+    }
+}
+
+/// candidate record sizes of a channel that carried `n` bytes
+fn record_sizes(n: usize) -> Vec<usize> {
+    let mut v: Vec<usize> = (2..=16).filter(|m| n % m == 0).map(|m| n / m).collect();
+    for s in [1usize, 4, 8, 32] {
+        if n >= 2 * s && n % s == 0 {
+            v.push(s);
         }
     }
+    v.sort_unstable();
+    v.dedup();
+    v
+}
+
+fn gen_tamper(rng: &mut Rng, thorough: bool, shards: usize, pad: &str, recs: &str, budget: Option<(usize, usize)>, out: &mut Vec<String>) {
+    let chans = list_channels(shards, pad, recs);
+    let head = format!("c02.tamper {shards} {pad} {recs}");
+    // group concrete channels by normalised gate class
+    let mut classes: std::collections::BTreeMap<String, Vec<Chan>> = Default::default();
+    for c in &chans {
+        if c.4 > 0 {
+            classes.entry(normalize_gate(&c.0)).or_default().push(c.clone());
+        }
+    }
+    let mut cases: Vec<String> = vec![];
+    // 1. blind byte-level changes, every gate class
     let per_class = if thorough { 12 } else { 1 };
     for (ci, (_class, members)) in classes.iter().enumerate() {
         for k in 0..per_class {
-            let (g, s, d, n) = rng.pick(members).clone();
-            let pat = match (ci + k) % 5 {
-                0 => format!("flip:0:{}", rng.below(8)),
-                1 => format!("flip:{}:{}", n - 1, rng.below(8)),
-                2 => format!("add:{}:{}", rng.usize_below(n), 1 + rng.below(255)),
-                3 => "zero".to_string(),
-                _ => format!("flip:{}:{}", rng.usize_below(n), rng.below(8)),
-            };
-            out.push(format!("c02.tamper {shards} {pad} {recs} H{s} H{d} {pat} {g}"));
+            let c = rng.pick(members).clone();
+            // a forged shuffle cardinality is used as an allocation size by the receiving helper: values beyond
+            // 2^16 rows end in `capacity overflow` panics or in a failed allocation that kills the whole test
+            // process (an abort as far as C02 goes, but not one the harness can observe), so only the two low
+            // bytes are altered
+            let n = if _class.ends_with("cardinality") { c.4.min(2) } else { c.4 };
+            cases.push(format!("{head} H{} {}", c.1, act(&c, &blind_pattern(rng, ci + k, n))));
         }
+    }
+    // 2. additive offsets at field-element granularity
+    let reps = if thorough { 6 } else { 1 };
+    for (class, members) in &classes {
+        let f61 = class.ends_with("generate_proof") || class.ends_with("p_times_q") || class.ends_with("verify_proof/diff");
+        let f25 = class.starts_with("eval_prf/");
+        if !(f61 || f25) {
+            continue;
+        }
+        let size = if f61 { 8 } else { 32 };
+        for k in 0..reps {
+            let c = rng.pick(members).clone();
+            if c.4 < size {
+                continue;
+            }
+            let elems = c.4 / size;
+            let e = if k == 0 { 0 } else { rng.usize_below(elems) };
+            let sign = if rng.bool() { 'p' } else { 'm' };
+            let tag = if f61 { "f61" } else { "f25" };
+            cases.push(format!("{head} H{} {}", c.1, act(&c, &format!("{tag}:{e}:{sign}{}", 1 + rng.below(1000)))));
+        }
+    }
+    // 3. lane-correlated offsets on a vectorised MAC-protected multiplication, replayed in the opening:
+    //    +d on lane i, -d on lane j of the message to the left peer in `x*y` (the `r*x*y` duplicate untouched),
+    //    and the same offsets on the copy opened towards the right peer
+    let find = |suffix: &str, s: u8, d: u8, x: Option<u32>| -> Option<Chan> {
+        chans.iter().find(|c| c.0.ends_with(suffix) && c.1 == s && c.2 == d && c.3 == x).cloned()
+    };
+    let shard_ids: Vec<Option<u32>> = {
+        let mut v: Vec<Option<u32>> = chans.iter().map(|c| c.3).collect();
+        v.sort();
+        v.dedup();
+        v
+    };
+    let n_lane = if thorough { 12 } else { 3 };
+    for k in 0..n_lane {
+        let corrupt = (k % 3) as u8 + 1;
+        let x = *rng.pick(&shard_ids);
+        let (Some(m), Some(o)) = (
+            find("eval_prf/malicious_protocol/mult_mask_with_p_r_f_input", corrupt, prev_h(corrupt), x),
+            find("eval_prf/malicious_protocol/revealz", corrupt, next_h(corrupt), x),
+        ) else { continue };
+        let records = m.4 / (32 * LANES);
+        let r = rng.usize_below(records.max(1));
+        // lanes that carry real rows (the last record may be partly padding)
+        let (i, j) = if k == 0 { (0, 1) } else {
+            let i = rng.usize_below(LANES.min(8));
+            let mut j = rng.usize_below(LANES.min(8));
+            if j == i { j = (i + 1) % LANES.min(8); }
+            (i, j)
+        };
+        let d = 1 + rng.below(1000);
+        let (ei, ej) = (r * LANES + i, r * LANES + j);
+        let acts = [
+            act(&m, &format!("f25:{ei}:p{d}")), act(&m, &format!("f25:{ej}:m{d}")),
+            act(&o, &format!("f25:{ei}:p{d}")), act(&o, &format!("f25:{ej}:m{d}")),
+        ];
+        cases.push(format!("{head} H{corrupt} {}", acts.join(",")));
+    }
+    // 4. swapping two records / replaying an earlier record, on channels that carry several records
+    let n_swap = if thorough { 40 } else { 10 };
+    let multi: Vec<&Chan> = chans.iter().filter(|c| !record_sizes(c.4).is_empty() && c.4 >= 2).collect();
+    // prefer the data-carrying classes
+    let wanted = ["transfer_x_y", "transfer_c", "reveal", "revealz", "reveal_r", "mult_mask_with_p_r_f_input", "upgrade", "generate_proof", "bit0", "hashes_h3to_h1"];
+    for k in 0..n_swap {
+        let w = wanted[k % wanted.len()];
+        let cand: Vec<&Chan> = multi.iter().filter(|c| c.0.ends_with(w)).copied().collect();
+        if cand.is_empty() {
+            continue;
+        }
+        let c: Chan = (*rng.pick(&cand)).clone();
+        let sizes = record_sizes(c.4);
+        let size = *rng.pick(&sizes);
+        let n = c.4 / size;
+        let a = rng.usize_below(n);
+        let mut b = rng.usize_below(n);
+        if a == b { b = (a + 1) % n; }
+        let (lo, hi) = (a.min(b), a.max(b));
+        let pat = if k % 2 == 0 { format!("swaprec:{size}:{lo}:{hi}") } else { format!("replay:{size}:{lo}:{hi}") };
+        cases.push(format!("{head} H{} {}", c.1, act(&c, &pat)));
+    }
+    match budget {
+        // `(blind, structured)`: a sample of each group (the lane-correlated cases always included)
+        Some((bb, bs)) => {
+            let (mut blind, structured): (Vec<String>, Vec<String>) = cases.into_iter().partition(|c| {
+                let a = c.rsplit(' ').next().unwrap_or("");
+                !a.contains(',') && ["|flip:", "|add:", "|zero|"].iter().any(|p| a.contains(p))
+            });
+            let (lane, mut rest): (Vec<String>, Vec<String>) = structured.into_iter().partition(|c| c.matches("f25:").count() == 4);
+            if blind.len() > bb {
+                rng.shuffle(&mut blind);
+                blind.truncate(bb);
+            }
+            if rest.len() + lane.len() > bs {
+                rng.shuffle(&mut rest);
+                rest.truncate(bs.saturating_sub(lane.len()));
+            }
+            out.extend(blind);
+            out.extend(lane);
+            out.extend(rest);
+        }
+        None => out.extend(cases),
     }
 }
 
 pub const RECS: &str = "i:11:3,c:11:2,i:12:3,c:12:5,c:13:1,c:13:2,i:14:9,i:15:1,c:15:4,c:16:3,i:17:3,c:17:1";
+
+/// enough keys that no shard runs empty at any stage (finding F8)
+fn big_records(rng: &mut Rng) -> String {
+    c01::rec_str(&c01::gen_records(rng, 70, 256, 8))
+}
 
 #[test]
 fn verif_c02_tamper() {
@@ -299,9 +604,13 @@ fn verif_c02_tamper() {
         "c02_tamper",
         |rng, thorough| {
             let mut out = vec![];
-            gen_tamper(rng, thorough, 1, "0", RECS, &mut out);
+            // quick: every gate class once with a blind change + 16 structured cases
+            gen_tamper(rng, thorough, 1, "0", RECS, if thorough { None } else { Some((usize::MAX, 16)) }, &mut out);
+            // two shards: helper-to-helper traffic of either shard
+            let big = big_records(rng);
+            gen_tamper(rng, thorough, 2, "0", &big, Some(if thorough { (60, 60) } else { (2, 4) }), &mut out);
             if thorough {
-                gen_tamper(rng, thorough, 1, "1", RECS, &mut out);
+                gen_tamper(rng, thorough, 1, "1", RECS, None, &mut out);
             }
             out
         },
@@ -314,7 +623,7 @@ fn verif_c02_channels() {
     run_suite(
         "c02_channels",
         |rng, _thorough| {
-            let big = c01::rec_str(&c01::gen_records(rng, 70, 256, 8));
+            let big = big_records(rng);
             vec![format!("c02.channels 1 0 {RECS}"), format!("c02.channels 1 1 {RECS}"), format!("c02.channels 2 0 {big}")]
         },
         exec,
